@@ -34,7 +34,8 @@ def build(sc: dict, lead: int = 0):
         objs = np.stack([val, 10.0 * decoy, o2], axis=1)
         cons = None
         cfg["objectives"] = {"weights": [1.0, 5.0, 2.0], "realization_filters": [0, -1, 0]}
-        cfg["realization_filters"] = [{"method": "cvar-objective", "options": {"sort": [0, 2], "percentile": p}}]
+        # (the order in which the ranked objectives are listed does not matter: every second scenario lists them descending)
+        cfg["realization_filters"] = [{"method": "cvar-objective", "options": {"sort": [2, 0] if (n + sc["k"]) % 2 else [0, 2], "percentile": p}}]
         col = ("obj", 0)
     elif fl in ("obj", "objneg"):
         objs = np.stack([decoy, val], axis=1)
